@@ -23,7 +23,8 @@
 // frames already on the wire); part K (trunc2: a complete frame whose magic-2
 // batch was truncated by the broker inside the last record); part L (stall: the
 // peer goes silent, cut column "st<a|r|w>.<k>", the Conn has a 150 ms
-// deadline; run concurrently).  The OCaml driver
+// deadline; run concurrently); part M (offs: the Conn's offset after a fetch answered with an
+// error code; ops connoffset, fetchnoseek).  The OCaml driver
 // evaluates the extracted Coq model (Model/ConnOps.v conn_run) on the part
 // before the first '|'.
 package main
@@ -94,6 +95,8 @@ var apiKeyOf = map[string]int16{
 	"fetchdrain": 1, // a fetch whose messages are all read before the batch is closed (part C)
 	// fetches read through Batch.Read / Batch.ReadMessage, Conn.Read, Conn.ReadMessage (part F)
 	"fetchread": 1, "connread": 1, "connreadmsg": 1,
+	// part M: a fetch without Seek, and the Conn's offset (no request)
+	"fetchnoseek": 1, "connoffset": -1,
 }
 
 // operations with a 4th field (the read actions)
@@ -104,6 +107,7 @@ var negotiated = map[string]bool{
 	"produce": true, "fetch": true, "metadata": true, "joingroup": true,
 	"createtopics": true, "deletetopics": true, "saslhandshake": true,
 	"fetchdrain": true, "fetchread": true, "connread": true, "connreadmsg": true,
+	"fetchnoseek": true,
 }
 
 // error-field sites of a response
@@ -143,6 +147,8 @@ var errHang error = hangErr{}
 type reqHdr struct {
 	key, ver int16
 	corr     int32
+	fetchOff int64 // fetch requests: the offset asked for
+	fetchOK  bool
 }
 
 type fakeConn struct {
@@ -188,6 +194,9 @@ func (f *fakeConn) pump() {
 			key:  int16(binary.BigEndian.Uint16(f.req[4:])),
 			ver:  int16(binary.BigEndian.Uint16(f.req[6:])),
 			corr: int32(binary.BigEndian.Uint32(f.req[8:])),
+		}
+		if h.key == 1 {
+			h.fetchOff, h.fetchOK = fetchReqOffset(f.req[:4+sz])
 		}
 		f.req = f.req[4+sz:]
 		f.log = append(f.log, h)
@@ -378,7 +387,20 @@ func runOp(conn *kafka.Conn, f *fakeConn, o opSpec, acts []int64, primed bool) (
 	wasClosed := f.closed
 	var s string
 	var err error
-	if readsOp[o.name] {
+	if o.name == "connoffset" { // no network: the Conn's offset and whence
+		off, whence := conn.Offset()
+		return "ok=" + kvfmt.I(off) + "," + kvfmt.I(int64(whence))
+	}
+	if o.name == "fetchnoseek" { // a fetch from wherever the Conn stands
+		b := conn.ReadBatchWith(kafka.ReadBatchConfig{MinBytes: 1, MaxBytes: 1 << 20})
+		err = b.Close()
+		f.pump()
+		req := "?"
+		if len(f.log) > sent && f.log[len(f.log)-1].fetchOK {
+			req = kvfmt.I(f.log[len(f.log)-1].fetchOff)
+		}
+		s = "[" + kvfmt.I(int64(b.Throttle()/time.Millisecond)) + ";" + kvfmt.I(b.HighWaterMark()) + ";" + req + "]"
+	} else if readsOp[o.name] {
 		s, err = kafka.VerifC11Reads(conn, o.name, o.off, acts)
 	} else {
 		s, err = kafka.VerifC11Op(conn, o.name, o.ver, o.off)
@@ -1526,8 +1548,118 @@ func genAll(seed int64, tier string) {
 	nJ := genSplit(seed + 66666)
 	nK := genTrunc2(seed + 77777)
 	nL := genStall(seed + 88888)
-	fmt.Fprintf(os.Stderr, "c11: part A %d cases, part B %d cases, part C %d cases, part D %d cases, part E %d cases, part F %d cases, part G %d cases, part H %d cases, part I %d cases, part J %d cases, part K %d cases, part L %d cases\n",
-		counts["A"], counts["B"], nC, nD, nE, nF, nG, nH, nI, nJ, nK, nL)
+	nM := genOffs(seed + 99999)
+	fmt.Fprintf(os.Stderr, "c11: part A %d cases, part B %d cases, part C %d cases, part D %d cases, part E %d cases, part F %d cases, part G %d cases, part H %d cases, part I %d cases, part J %d cases, part K %d cases, part L %d cases, part M %d cases\n",
+		counts["A"], counts["B"], nC, nD, nE, nF, nG, nH, nI, nJ, nK, nL, nM)
+}
+
+// ---------------------------------------------------------------------------
+// PART M: the Conn's offset after a fetch answered with a broker error code
+// (it must stay where it was: the next fetch, issued WITHOUT a Seek, has to ask
+// for the same offset).  connoffset and fetchnoseek use the exported API only.
+// ---------------------------------------------------------------------------
+
+// the fetch offset asked for by a fetch request (the whole request, size field first)
+func fetchReqOffset(req []byte) (off int64, ok bool) {
+	defer func() {
+		if recover() != nil {
+			off, ok = 0, false
+		}
+	}()
+	ver := int(int16(binary.BigEndian.Uint16(req[6:])))
+	p := 12
+	if n := int(int16(binary.BigEndian.Uint16(req[p:]))); n > 0 { // client id
+		p += n
+	}
+	p += 2
+	p += 4 + 4 + 4 // replica id, max wait, min bytes
+	if ver >= 3 {
+		p += 4 // max bytes
+	}
+	if ver >= 4 {
+		p++ // isolation level
+	}
+	if ver >= 7 {
+		p += 8 // session id, session epoch
+	}
+	p += 4 // topics count
+	p += 2 + int(int16(binary.BigEndian.Uint16(req[p:])))
+	p += 4 + 4 // partitions count, partition
+	if ver >= 9 {
+		p += 4 // current leader epoch
+	}
+	return int64(binary.BigEndian.Uint64(req[p:])), true
+}
+
+// a fetch response with an empty message set
+func fetchBodyM(r *rand.Rand, ver int, top, perr int16, hwm int64) []byte {
+	var e enc
+	e.i32(ri32(r)) // throttle
+	if ver == 10 {
+		e.i16(top)
+		e.i32(ri32(r)) // session id
+	}
+	e.arr(1)
+	e.str(rstr(r))
+	e.arr(1)
+	e.i32(ri32(r)) // partition
+	e.i16(perr)
+	e.i64(hwm)
+	if ver >= 5 {
+		e.i64(ri64(r)) // last stable offset
+		e.i64(ri64(r)) // log start offset
+		e.arr(0)       // aborted transactions
+	}
+	e.i32(0) // message set size
+	return e.b
+}
+
+func genOffs(seed int64) int {
+	r := rand.New(rand.NewSource(seed))
+	count := 0
+	co := opSpec{"connoffset", 0, 0}
+	for _, ver := range []int{2, 5, 10} {
+		fields := []string{"partition"}
+		if ver == 10 {
+			fields = append(fields, "toplevel")
+		}
+		type cs struct {
+			field string
+			code  int16
+		}
+		var list []cs
+		for _, f := range fields {
+			for _, c := range []int16{3, 6, 1} {
+				list = append(list, cs{f, c})
+			}
+		}
+		list = append(list, cs{"none", 0}) // control: no error
+		for _, c := range list {
+			for _, off := range []int64{0x28, 0x3039} {
+				var top, perr int16
+				switch c.field {
+				case "toplevel":
+					top = c.code
+				case "partition":
+					perr = c.code
+				}
+				hwm1 := off + 100
+				if c.code == 0 {
+					hwm1 = off
+				}
+				emit(&tcase{
+					topic:  ownTopic,
+					cut:    -1,
+					ops:    []opSpec{{"fetch", ver, off}, co, {"fetchnoseek", ver, 0}, co},
+					frames: [][]byte{frame(2, fetchBodyM(r, ver, top, perr, hwm1)), frame(3, fetchBodyM(r, ver, 0, 0, off))},
+					tags: fmt.Sprintf("offs,op=fetchv%d,field=%s,code=%d,off=%s,next=connoffset,next2=fetchnoseekv%d",
+						ver, c.field, c.code, kvfmt.U(uint64(off)), ver),
+				})
+				count++
+			}
+		}
+	}
+	return count
 }
 
 // ---------------------------------------------------------------------------
